@@ -1,6 +1,6 @@
 #!/usr/bin/env python3
 # Applies behaviour-preserving changes (/verif/benign/<id>/*.diff, made by sub-agents that were given only the property text) to
-# scratch worktrees of /repo (HEAD) and runs the check of every property that has a function under contract in a touched
+# scratch worktrees of /repo (HEAD, or the commit named by VERIF_REF) and runs the check of every property that has a function under contract in a touched
 # package: every check must stay exit 0 (no false alarm on a harmless edit). /repo itself is not touched.
 # usage: tools_benign.py [-j N] [substr ...]
 import json,os,re,subprocess,sys,threading,queue
@@ -18,7 +18,7 @@ for d in sorted(os.listdir('/verif/benign')):
         if f.endswith('.diff') and (not args or any(o in d+'/'+f for o in args)): jobs.put(d+'/'+f)
 def worker(i):
     WT='/tmp/benign-wt-%d-%d'%(os.getpid(),i)
-    assert sh('git','-C','/repo','worktree','add','--detach',WT,'HEAD').returncode==0
+    assert sh('git','-C','/repo','worktree','add','--detach',WT,os.environ.get('VERIF_REF','HEAD')).returncode==0
     try:
         while True:
             try: name=jobs.get_nowait()
